@@ -181,11 +181,20 @@ def sort_ids(l):
 
 # ---------------------------------------------------------------- the real endpoint
 class _Writer:
+    """Recording writer.  `react` (one-shot) is called INSIDE write() with the request frame just
+    written: the reactive-transport configuration (in-process pipe / loopback peer / a read loop
+    that is faster than the sending thread): the reply is dispatched before send_request returns."""
+
     def __init__(self):
         self.frames = []
+        self.react = None
 
     def write(self, data):
-        self.frames.append(json.loads(data.decode("utf-8")))
+        frame = json.loads(data.decode("utf-8"))
+        self.frames.append(frame)
+        if self.react is not None and "method" in frame and "id" in frame:
+            react, self.react = self.react, None
+            react(frame)
 
     def close(self):
         pass
@@ -303,9 +312,24 @@ class _Req:
         return [1, canon_value(f.result())]
 
 
+def reply_obj(real, rep):
+    """The frame of a scripted reply ["res", p] / ["err", code, msg, data] for the id `real`."""
+    obj = {"jsonrpc": "2.0", "id": real}
+    if rep[0] == "res":
+        if PAYLOADS[rep[1]] != MISSING:
+            obj["result"] = PAYLOADS[rep[1]]
+    else:
+        err = {"code": rep[1], "message": MSGS[rep[2]]}
+        if DATA[rep[3]] != ABSENT:
+            err["data"] = DATA[rep[3]]
+        obj["error"] = err
+    return obj
+
+
 async def _run_script(case, loop):
-    import concurrent.futures
+    import concurrent.futures, queue
     ep = Endpoint(loop)
+    inbox = queue.Queue()
     proto = ep.protocol
     reqs, uuids, trace = [], [], []
     hooks_out = 0
@@ -331,7 +355,20 @@ async def _run_script(case, loop):
             k = e[0]
             h0 = ep.hooks
             if k == "send":
-                _, mi, cb, mid, kind = e
+                _, mi, cb, mid, kind = e[:5]
+                react = e[5] if len(e) > 5 else None
+                if react is not None:
+                    mode, rep = react
+
+                    def on_request(frame, mode=mode, rep=rep):
+                        obj = reply_obj(frame["id"], rep)
+                        if mode == "w":
+                            ep.feed(obj)                 # same thread, inside writer.write
+                        else:
+                            done = threading.Event()     # the read loop (main thread) dispatches it while
+                            inbox.put((obj, done))       # the sending thread is still inside write
+                            done.wait(10)
+                    ep.writer.react = on_request
                 method = METHODS[mi][0]
                 params = method_params(mi)
                 rq = _Req(kind)
@@ -368,22 +405,24 @@ async def _run_script(case, loop):
                                     return
                         rq.thread = threading.Thread(target=blocked, daemon=True)
                         rq.thread.start()
-                        rq.sent.wait(10)
+                        for _ in range(2000):
+                            if rq.sent.wait(0.005):
+                                break
+                            try:
+                                obj, done = inbox.get_nowait()
+                            except queue.Empty:
+                                continue
+                            ep.feed(obj)
+                            done.set()
                     else:
                         rq.fut = proto.send_request(method, params, **kw)
                 written = requests_written()
                 if mid is None and len(written) > before:
                     uuids.append(written[-1]["id"])
             elif k == "res":
-                obj = {"jsonrpc": "2.0", "id": real_id(e[1])}
-                if PAYLOADS[e[2]] != MISSING:
-                    obj["result"] = PAYLOADS[e[2]]
-                ep.feed(obj)
+                ep.feed(reply_obj(real_id(e[1]), ["res", e[2]]))
             elif k == "err":
-                err = {"code": e[2], "message": MSGS[e[3]]}
-                if DATA[e[4]] != ABSENT:
-                    err["data"] = DATA[e[4]]
-                ep.feed({"jsonrpc": "2.0", "id": real_id(e[1]), "error": err})
+                ep.feed(reply_obj(real_id(e[1]), ["err", e[2], e[3], e[4]]))
             elif k == "cancel":
                 if e[1] < len(reqs) and reqs[e[1]].fut is not None:
                     reqs[e[1]].fut.cancel()
@@ -400,6 +439,7 @@ async def _run_script(case, loop):
                     g.set_result(bool(e[2]))
             elif k == "incancel":
                 ep.feed({"jsonrpc": "2.0", "method": "$/cancelRequest", "params": {"id": real_id(e[1])}})
+            ep.writer.react = None
             await _spin()
             if k not in IN_EVENTS:
                 hooks_out += ep.hooks - h0
@@ -477,6 +517,8 @@ def wellformed(case):
                 nuu += 1
             if e[4] == "a" and e[2]:
                 return False
+            if len(e) > 5 and e[5] is not None and e[5][0] == "l" and e[4] != "t":
+                return False
         elif k == "cancel":
             if e[1] >= nsend:
                 return False
@@ -504,7 +546,7 @@ class C05(core.Property):
     obligations = ["inv_init", "inv_step", "inv_run", "ids_distinct", "resp_frame", "first_response_wins",
                    "future_monotone", "future_monotone_run", "callback_iff_resolved", "stray_dup_noop",
                    "error_always_fails", "result_resolves", "class_of_code_spec", "guard_sound",
-                   "reference_agrees", "reply_order_irrelevant", "C05_partial", "C05", "C05_permutation", "C05_refuted_shared_tables", "C05_refuted_code_range", "C05_refuted",
+                   "reference_agrees", "reply_during_write", "registered_before_write", "reply_order_irrelevant", "C05_partial", "C05", "C05_permutation", "C05_refuted_shared_tables", "C05_refuted_code_range", "C05_refuted",
                    "C05_outside_invalid_result", "C05_nonvacuous", "C16_outgoing", "rtypes_sub", "K_step"]
     coq_targets = ["Props/C05.vo", "Extract/ExtractC05.vo"]
     rule = ("scripted histories over the real protocol object: k <= 6 outstanding requests over 8 methods "
@@ -546,6 +588,26 @@ class C05(core.Property):
                     ref = ["u", 0] if mid is None else mid
                     cases.append({"evs": [["send", n % len(METHODS), cb, mid, kind],
                                           ["err", ref, code, mi, di]]})
+        # (1b) reactive transport: the reply is dispatched while send_request is still inside
+        #      writer.write - in the same thread (w: in-process / loopback writer) or by the read
+        #      loop on the main thread while the sending thread is blocked in write (l)
+        n = 0
+        for kind, mode in (("p", "w"), ("a", "w"), ("t", "w"), ("t", "l")):
+            for rk in range(3):
+                for mid in (None, ["i", 7]):
+                    for pre in (False, True):
+                        n += 1
+                        mi = n % len(METHODS)
+                        good = [p for p in range(len(PAYLOADS)) if oracle(METHODS[mi][1], p)[0]]
+                        rep = [["res", good[n % len(good)]], ["err", 0, 0, 3], ["err", -32603, 1, 0]][rk]
+                        cb = 0 if kind == "a" else 1
+                        ref = mid if mid is not None else ["u", 1 if pre else 0]
+                        evs = [["send", (mi + 1) % len(METHODS), 1, None, "p"]] if pre else []
+                        evs.append(["send", mi, cb, mid, kind, [mode, rep]])
+                        evs.append(["res", ref, good[0]])                       # a duplicate afterwards
+                        if pre:
+                            evs.append(["err", ["u", 0], 1, 1, 0])
+                        cases.append({"evs": evs})
         # (2) k outstanding, one reply each, every order of the replies
         for k in range(1, chk.n(3, 4) + 1):
             for rep in range(chk.n(3, 12)):
@@ -607,6 +669,10 @@ class C05(core.Property):
             r = rng.random()
             if pending_sends and (r < 0.35 or not sent):
                 s, ref = pending_sends.pop(0)
+                if rng.random() < 0.12:
+                    rep = self._reply(rng, s, ref)
+                    rep = ["res", rep[2]] if rep[0] == "res" else ["err", rep[2], rep[3], rep[4]]
+                    s = s + [["l" if (s[4] == "t" and rng.random() < 0.5) else "w", rep]]
                 evs.append(s); sent.append((s, ref))
                 continue
             if not sent:
@@ -640,8 +706,29 @@ class C05(core.Property):
         return [run_case(c) for c in cases]
 
     # ---------------- model ----------------
+    @staticmethod
+    def expand(c):
+        """Model events of a script.  A reactive send (the reply is dispatched during the write) is,
+        by Proofs.OutgoingProofs.reply_during_write, the send followed by that reply; `keep` = index
+        of the model state that corresponds to the end of each script event."""
+        evs, keep, nuu = [], [], 0
+        for e in c["evs"]:
+            if e[0] == "send":
+                ref = e[3]
+                if ref is None:
+                    ref = ["u", nuu]; nuu += 1
+                evs.append(e[:5])
+                if len(e) > 5 and e[5] is not None:
+                    rep = e[5][1]
+                    evs.append(["res", ref, rep[1]] if rep[0] == "res" else ["err", ref, rep[1], rep[2], rep[3]])
+            else:
+                evs.append(e)
+            keep.append(len(evs) - 1)
+        return evs, keep
+
     def model_input(self, c):
-        return f"run {len(c['evs'])} " + " ".join(enc_ev(e) for e in c["evs"])
+        evs, _ = self.expand(c)
+        return f"run {len(evs)} " + " ".join(enc_ev(e) for e in evs)
 
     def model_output(self, c, toks):
         t = Toks(toks)
@@ -652,6 +739,7 @@ class C05(core.Property):
             fk, rk = t.lst(t.id), t.lst(t.id)
             return [futs, errs, nout, sort_ids(fk), sort_ids(rk)]
         trace = t.lst(digest)
+        trace = [trace[j] for j in self.expand(c)[1]]
         final = t.lst(lambda: [t.fstate(), t.int()])
 
         def wire():
@@ -728,6 +816,10 @@ class C05(core.Property):
             if wellformed(d):
                 yield d
         for i in range(len(evs)):
+            if evs[i][0] == "send" and len(evs[i]) > 5 and evs[i][5] is not None and evs[i][5][0] == "l":
+                e = list(evs[i]); e[5] = ["w", e[5][1]]
+                yield {"evs": evs[:i] + [e] + evs[i + 1:]}
+        for i in range(len(evs)):
             if evs[i][0] == "send" and evs[i][4] != "p":
                 e = list(evs[i]); e[4] = "p"
                 yield {"evs": evs[:i] + [e] + evs[i + 1:]}
@@ -751,6 +843,8 @@ class C05(core.Property):
             d[f"sends={sum(1 for e in evs if e[0] == 'send')}"] = d.get(f"sends={sum(1 for e in evs if e[0] == 'send')}", 0) + 1
             for e in evs:
                 key = "ev:" + e[0] + (":" + e[4] if e[0] == "send" else "")
+                if e[0] == "send" and len(e) > 5 and e[5] is not None:
+                    key += ":reactive-" + e[5][0]
                 d[key] = d.get(key, 0) + 1
                 if e[0] == "err":
                     d[f"code:{e[2]}"] = d.get(f"code:{e[2]}", 0) + 1
